@@ -60,6 +60,23 @@ Proof.
   - unfold alt8. rewrite Ha. cbn. exact Ha.
 Qed.
 
+Lemma alter_sill_spec nvar sc sn og o' :
+  alter_sill nvar sc sn og = Some o' ->
+  o_aniso o' = o_aniso og /\ o_rot o' = o_rot og /\
+  (o_goulard o' = true -> o_goulard og = true /\ sc = false) /\
+  (o_goulard o' = false -> nvar <= 1).
+Proof.
+  unfold alter_sill. destruct (sc && sn); [discriminate|].
+  destruct sc.
+  - cbn [set_goulard o_goulard negb]. rewrite andb_true_r. destruct (1 <? nvar) eqn:E2; [discriminate|].
+    intro H. injection H as <-. cbn. apply Z.ltb_ge in E2.
+    split; [reflexivity|]. split; [reflexivity|]. split; [discriminate | intros _; exact E2].
+  - destruct ((1 <? nvar) && negb (o_goulard og)) eqn:E2; [discriminate|].
+    intro H. injection H as <-. split; [reflexivity|]. split; [reflexivity|]. split.
+    + intro Hg. split; [exact Hg | reflexivity].
+    + intro Hg. rewrite Hg in E2. cbn in E2. rewrite andb_true_r in E2. apply Z.ltb_ge in E2. exact E2.
+Qed.
+
 Lemma alter_optvar_restricts ndim ndir zflat nvar sc sn o o' :
   alter_optvar ndim ndir zflat nvar sc sn o = Some o' ->
   (o_aniso o' = true -> o_aniso o = true) /\
@@ -73,16 +90,25 @@ Proof.
   assert (Gg : o_goulard og = o_goulard o).
   { unfold og, alter_geom, alt8, alt7, alt6, alt5, alt4, alt3, alt2, alt1.
     repeat match goal with |- context [if ?c then _ else _] => destruct c; cbn end; reflexivity. }
-  destruct (sc && o_goulard og && sn); [discriminate|].
-  destruct (sc && o_goulard og) eqn:E1.
-  - cbn [set_goulard o_goulard]. destruct (1 <? nvar) eqn:E2; cbn; [discriminate|].
-    intro H. injection H as <-. cbn. apply Z.ltb_ge in E2.
-    split; [apply alter_geom_aniso|]. split; [apply alter_geom_rot|]. split; [discriminate | intros _; exact E2].
-  - destruct ((1 <? nvar) && negb (o_goulard og)) eqn:E2; [discriminate|].
-    intro H. injection H as <-.
-    split; [apply alter_geom_aniso|]. split; [apply alter_geom_rot|]. split.
-    + intro Hg. rewrite Hg in E1. rewrite andb_true_r in E1. rewrite <- Gg. auto.
-    + intro Hg. rewrite Hg in E2. cbn in E2. rewrite andb_true_r in E2. apply Z.ltb_ge in E2. exact E2.
+  intro H. apply alter_sill_spec in H. destruct H as (Ha & Hr & Hg & Hn).
+  split; [rewrite Ha; apply alter_geom_aniso|]. split.
+  - rewrite Hr, Ha. apply alter_geom_rot.
+  - split; [|exact Hn]. intro G. destruct (Hg G) as [G1 G2]. rewrite <- Gg. auto.
+Qed.
+
+(* the variogram-map variant never re-opens what the user locked either *)
+Lemma alter_vmap_optvar_restricts ndim nvar sc sn o o' :
+  alter_vmap_optvar ndim nvar sc sn o = Some o' ->
+  (o_aniso o' = true -> o_aniso o = true) /\
+  (o_rot o' = true -> o_rot o = true /\ o_aniso o' = true) /\
+  (o_goulard o' = true -> o_goulard o = true /\ sc = false) /\
+  (o_goulard o' = false -> nvar <= 1).
+Proof.
+  unfold alter_vmap_optvar. intro H. apply alter_sill_spec in H. destruct H as (Ha & Hr & Hg & Hn).
+  assert (Gg : forall o1 b, o_goulard (set_no3d o1 b) = o_goulard o1) by reflexivity.
+  destruct (o_aniso o) eqn:A; cbn [negb] in *.
+  - cbn in Ha, Hr, Hg. rewrite A in Ha. split; [auto|]. split; [intro R; rewrite R in Hr; auto|]. split; [exact Hg | exact Hn].
+  - cbn in Ha, Hr, Hg. rewrite A in Ha. split; [intro X; congruence|]. split; [intro R; congruence|]. split; [exact Hg | exact Hn].
 Qed.
 
 (* ------------------------------------------------------------------ options: list of free parameters *)
@@ -493,4 +519,27 @@ Proof.
   assert (H : Forall (fun x => x = v) (map (fun _ => v) ranges)).
   { apply Forall_forall. intros x Hx. apply in_map_iff in Hx. destruct Hx as (_ & <- & _). reflexivity. }
   destruct (Z.ltb _ _); [apply set_nthq_forall; auto | exact H].
+Qed.
+
+(* ------------------------------------------------------------------ angles imposed by equality constraints *)
+Lemma imposed_angle_equal pre it post ps icov idim a0 v :
+  angle_is_param ps icov idim = false ->
+  (forall x, In x pre -> designates x (mkP 0 icov E_ANGLE idim 0) = false) ->
+  designates it (mkP 0 icov E_ANGLE idim 0) = true ->
+  ci_case it = T_EQUAL -> ci_val it = Some v ->
+  imposed_angle (pre ++ it :: post) ps icov idim a0 = v.
+Proof.
+  intros Hp Hpre Hit Hc Hv. unfold imposed_angle. rewrite Hp.
+  destruct (constraints_get_first pre it post _ Hpre Hit) as (_ & _ & _ & HE). destruct (HE Hc) as [G1 G2].
+  rewrite G1, G2, Hv. assert (E : qeqb v v = true) by (apply qeqb_true; reflexivity). rewrite E. reflexivity.
+Qed.
+
+(* an angle that is a parameter of the fit, or that no item designates, is left alone *)
+Lemma imposed_angle_untouched items ps icov idim a0 :
+  angle_is_param ps icov idim = true \/ (forall it, In it items -> designates it (mkP 0 icov E_ANGLE idim 0) = false) ->
+  imposed_angle items ps icov idim a0 = a0.
+Proof.
+  intros [H|H]; unfold imposed_angle.
+  - rewrite H. reflexivity.
+  - destruct (angle_is_param ps icov idim); [reflexivity|]. rewrite !constraints_get_none by exact H. reflexivity.
 Qed.
